@@ -85,8 +85,8 @@ func (k *keepFunc) Keep(gid glyph.ID) bool {
 		} else if flags&UseMarkFilteringSet != 0 {
 			// If a mark filtering set is specified, this supersedes any mark
 			// attachment type indication in the lookup flag.
-			set := k.Meta.MarkFilteringSet
-			if k.Gdef.MarkGlyphSets == nil || !k.Gdef.MarkGlyphSets[set][gid] {
+			set := int(k.Meta.MarkFilteringSet)
+			if set >= len(k.Gdef.MarkGlyphSets) || !k.Gdef.MarkGlyphSets[set][gid] {
 				return false
 			}
 		} else if m := flags & MarkAttachTypeMask; m != 0 {
